@@ -19,6 +19,15 @@ import Dirk.Spec.Lifecycle
 namespace Driver
 open Dirk
 
+/-- the harness routes an injected signing failure for batch position j by the signing ROOT (the hook sees
+    only the root): every position whose root equals that of a failing position fails with it. -/
+def expandSignFails (roots : List (Option Bytes)) (fails : List Nat) : List Nat :=
+  let bad := fails.filterMap (fun j => roots.getD j none)
+  fails ++ (List.range roots.length).filter (fun i =>
+    match roots.getD i none with
+    | some r => bad.contains r
+    | none => false)
+
 structure DState where
   accounts : List Account := []
   wallets : List String := []
@@ -270,7 +279,8 @@ def dstepCore (st : DState) (line : String) : DState × Option String :=
     match unhexStr c, parseFaults f, its with
     | some c, some f, some its =>
       let c := if st.viaGrpc && c.isEmpty then "anonymous-empty" else c
-      let (s', ps) := if st.viaGrpc then hSignAtts st.inst c its f.f f.signFail else signAtts st.inst c its f.f f.signFail
+      let sf := expandSignFails (its.map (fun it => it.2.signingRoot)) f.signFail
+      let (s', ps) := if st.viaGrpc then hSignAtts st.inst c its f.f sf else signAtts st.inst c its f.f sf
       ({ st with inst := s', lastTrace := traceAtts st.inst c its ++ List.replicate (ps.filter (·.root.isSome)).length .sign }, some (manyStr ps))
     | _, _, _ => bad st line
   | ["atts0", c, _ip] =>
@@ -305,7 +315,8 @@ def dstepCore (st : DState) (line : String) : DState × Option String :=
     | some c, some ip, some f, some its =>
       let c := if st.viaGrpc && c.isEmpty then "anonymous-empty" else c
       let ip := if st.viaGrpc then "127.0.0.1" else ip
-      let (s', ps) := if st.viaGrpc then hMultisign st.inst c ip its f.signFail else multisign st.inst c ip its f.signFail
+      let sf := expandSignFails (its.map (fun it => it.2.signingRoot)) f.signFail
+      let (s', ps) := if st.viaGrpc then hMultisign st.inst c ip its sf else multisign st.inst c ip its sf
       ({ st with inst := s', lastTrace := traceMsign st.inst c its ++ List.replicate (ps.filter (·.root.isSome)).length .sign }, some (manyStr ps))
     | _, _, _, _ => bad st line
   -- dkg engine
